@@ -513,7 +513,8 @@ func (g *progGen) stmt() string {
 		}
 	case 9: // data
 		if r.Chance(1, 6) { // operand lists mixing kinds: number, (forward) label, label arithmetic, string, character
-			items := []string{g.imm(16), g.target(), g.target() + "+4", "\"AB\"", "'C'", "$", g.expr(1), "\"x\""}
+			items := []string{g.imm(16), g.target(), g.target() + "+4", "\"AB\"", "'C'", "$", g.expr(1), "\"x\"",
+				pick(r, undefinedTargets) + "+2", g.target() + "/0", g.target() + "-" + g.target(), g.target() + "*2"}
 			n := r.Range(2, 4)
 			xs := make([]string, n)
 			for i := range xs {
@@ -624,6 +625,23 @@ func (g *progGen) stmt() string {
 	}
 }
 
+// forceFeature: while one program is generated, the named construct is produced with certainty
+// instead of with its usual probability, so that every pool contains every rare construct at least
+// once (pool building is sequential). "" = no forcing.
+var forceFeature string
+
+func feat(r *RNG, name string, num, den int) bool {
+	if forceFeature == name {
+		return true
+	}
+	return r.Chance(num, den)
+}
+
+// programFeatures lists the rare program-level constructs that buildPool forces one by one.
+var programFeatures = []string{"family", "dotted", "case_sibling", "dup_label", "equ_redef", "alias_chain", "late_org", "jumpstress",
+	"extern_overlap", "global_equ", "instrset_pre386", "empty_image", "undefined_target", "seg_operand", "poison_data", "big_resb",
+	"mid_org", "mid_directive", "mid_equ_dollar", "edit_twin", "shared_operands"}
+
 type genOpts struct {
 	Bits32, Coff bool
 	Org          int // <0: none
@@ -656,7 +674,7 @@ func drawGenOpts(r *RNG) genOpts {
 	} else if r.Chance(1, 6) {
 		o.NGlobal = r.Range(1, 5)
 	}
-	if r.Chance(1, 25) { // nothing but labels, EQUs and directives: an empty image
+	if feat(r, "empty_image", 1, 25) { // nothing but labels, EQUs and directives: an empty image
 		o.NStmts = 0
 	}
 	return o
@@ -701,7 +719,10 @@ func genBody(r *RNG, o genOpts) (body []string, hasEqu, hasGlobal bool) {
 		hasEqu = true
 	}
 	g.equs = equNames
-	if o.NLabels >= 4 && r.Chance(1, 3) {
+	if forceFeature == "family" && o.NLabels < 4 {
+		o.NLabels = 5
+	}
+	if o.NLabels >= 4 && feat(r, "family", 1, 3) {
 		// a family of long names sharing a stem: the stem itself and 2-3 prefixed variants
 		stem := pick(r, nameHeads) + pick(r, []string{"_inthandler21", "_very_long_symbol_name", "_store_cr0_eflags", "_load_gdtr_idtr"})
 		fam := []string{stem}
@@ -733,7 +754,7 @@ func genBody(r *RNG, o genOpts) (body []string, hasEqu, hasGlobal bool) {
 	// differ only in '.', '$' or '_' (".fin" next to "_fin"), and extensions at a '.' boundary
 	// ("msg.end" next to "msg"). gosk cannot jump to them, so they are only defined and used in
 	// memory operands and data.
-	if len(g.labels) > 0 && r.Chance(1, 3) {
+	if len(g.labels) > 0 && feat(r, "dotted", 1, 3) {
 		for k, n := 0, r.Range(1, 3); k < n; k++ {
 			base := pick(r, g.labels)
 			for t := 0; t < 6 && !strings.Contains(base, "_"); t++ {
@@ -762,7 +783,7 @@ func genBody(r *RNG, o genOpts) (body []string, hasEqu, hasGlobal bool) {
 	}
 	// names that differ only in letter case from another name, and labels spelled like a register or a
 	// mnemonic in lower case: identifiers are case-sensitive, mnemonics and registers are upper-case
-	if len(g.labels) > 0 && r.Chance(1, 5) {
+	if len(g.labels) > 0 && feat(r, "case_sibling", 1, 5) {
 		base := pick(r, g.labels)
 		var d string
 		switch r.Intn(3) {
@@ -795,7 +816,7 @@ func genBody(r *RNG, o genOpts) (body []string, hasEqu, hasGlobal bool) {
 	for i := 0; i < o.Undefined; i++ {
 		globals = append(globals, g.newName()+"_undef")
 	}
-	if len(g.equs) > 0 && len(globals) > 0 && r.Chance(1, 4) {
+	if len(g.equs) > 0 && len(globals) > 0 && feat(r, "global_equ", 1, 4) {
 		globals = append(globals, pick(r, g.equs)) // a GLOBAL that names an EQU constant
 	}
 	if len(globals) > 1 && r.Chance(1, 5) {
@@ -815,7 +836,7 @@ func genBody(r *RNG, o genOpts) (body []string, hasEqu, hasGlobal bool) {
 	for i := 0; i < o.Extern; i++ {
 		externs = append(externs, g.newName()+"_ext")
 	}
-	if len(externs) > 0 && r.Chance(1, 2) {
+	if len(externs) > 0 && feat(r, "extern_overlap", 1, 2) {
 		// irregular but tolerated declarations: a name both GLOBAL and EXTERN, an EXTERN repeated
 		if len(declaredGlobals) > 0 {
 			at := r.Intn(len(externs) + 1)
@@ -847,13 +868,13 @@ func genBody(r *RNG, o genOpts) (body []string, hasEqu, hasGlobal bool) {
 	g.labels = known // all labels are referable (forward references included)
 	for i := 0; i < o.NStmts; i++ {
 		remaining := o.NStmts - i
-		if r.Chance(1, 30) && !o.Coff { // ORG after data or code, or a second ORG
+		if !o.Coff && (r.Chance(1, 30) || (forceFeature == "mid_org" && i == o.NStmts/2)) { // ORG after data or code, or a second ORG
 			body = append(body, fmt.Sprintf("\tORG\t0x%x", pick(r, []int{0x7c00, 0xc200, 0x100, 0x8000, 0})))
 		}
-		if r.Chance(1, 40) { // a configuration directive in the middle of the code, possibly repeated
+		if r.Chance(1, 40) || (forceFeature == "mid_directive" && i == o.NStmts/2) { // a configuration directive in the middle of the code, possibly repeated
 			body = append(body, pick(r, []string{"[SECTION .data]", "[SECTION .bss]", "[SECTION .text]", "[BITS 16]", "[BITS 32]", "[ABSOLUTE 0x100]", "[OPTIMIZE 1]", "[PADDING 2]", `[FILE "second.nas"]`, `[INSTRSET "i386"]`, `[FORMAT "BIN"]`}))
 		}
-		if r.Chance(1, 40) { // EQUs over the location counter and over label differences, defined mid-program
+		if r.Chance(1, 40) || (forceFeature == "mid_equ_dollar" && i == o.NStmts/2) { // EQUs over the location counter and over label differences, defined mid-program
 			n := strings.ToUpper(g.newName())
 			g.used[n] = true
 			v := "$"
@@ -883,10 +904,10 @@ func genBody(r *RNG, o genOpts) (body []string, hasEqu, hasGlobal bool) {
 	for _, l := range pending {
 		body = append(body, l+":")
 	}
-	if len(g.labels) > 0 && r.Chance(1, 10) { // a label defined twice
+	if len(g.labels) > 0 && feat(r, "dup_label", 1, 10) { // a label defined twice
 		body = append(body, pick(r, g.labels)+":", "\tNOP")
 	}
-	if len(g.equs) > 0 && r.Chance(1, 10) { // an EQU name redefined, or also defined as a label
+	if len(g.equs) > 0 && feat(r, "equ_redef", 1, 10) { // an EQU name redefined, or also defined as a label
 		if r.Chance(1, 2) {
 			body = append(body, pick(r, g.equs)+"\tEQU\t"+fmt.Sprintf("0x%x", r.Intn(0x1000)))
 		} else {
@@ -897,7 +918,7 @@ func genBody(r *RNG, o genOpts) (body []string, hasEqu, hasGlobal bool) {
 		body = append(body, "\t"+pick(r, []string{"JMP", "JE", "JNZ", "CALL"})+"\t"+t)
 	}
 	body = append(body, lateEqus...)
-	if r.Chance(1, 4) {
+	if feat(r, "alias_chain", 1, 4) {
 		// use -> alias -> target: a constant used before the EQU that defines it, which is itself a bare
 		// alias of an EQU defined even later (chains of 1-3 aliases)
 		depth := r.Range(1, 3)
@@ -930,7 +951,9 @@ func headerFor(o genOpts, r *RNG) []string {
 			h = append(h, `[INSTRSET "i486p"]`)
 		}
 	} else {
-		if r.Chance(1, 3) { // any instruction-set level, also the pre-386 ones
+		if forceFeature == "instrset_pre386" {
+			h = append(h, `[INSTRSET "`+pick(r, instrSets[:4])+`"]`)
+		} else if r.Chance(1, 3) { // any instruction-set level, also the pre-386 ones
 			h = append(h, `[INSTRSET "`+pick(r, instrSets)+`"]`)
 		}
 		if r.Chance(1, 8) {
@@ -988,9 +1011,45 @@ func genJumpStress(r *RNG) []string {
 // same statement lines under a different mode/format/origin header.
 func genProgram(r *RNG, name string, twin bool, nonASCII bool) []*Program {
 	o := drawGenOpts(r)
+	switch forceFeature {
+	case "late_org", "mid_org", "instrset_pre386", "big_resb":
+		o.Coff = false
+		if forceFeature == "late_org" {
+			o.Org = -1
+		}
+	case "extern_overlap", "global_equ", "family":
+		o.Coff = true
+		o.Org = -1
+		if o.NLabels < 5 {
+			o.NLabels = 12
+		}
+		if o.NGlobal < 4 {
+			o.NGlobal = 12
+		}
+		if o.Extern < 2 {
+			o.Extern = 3
+		}
+		if o.NEqu < 2 {
+			o.NEqu = 4
+		}
+	case "equ_redef", "alias_chain", "mid_equ_dollar":
+		if o.NEqu < 2 {
+			o.NEqu = 4
+		}
+	case "edit_twin":
+		twin = true
+	}
+	if forceFeature != "" && forceFeature != "empty_image" {
+		if o.NLabels < 2 {
+			o.NLabels = 5
+		}
+		if o.NStmts < 8 {
+			o.NStmts = 20
+		}
+	}
 	o.NonASCII = nonASCII && r.Chance(1, 3)
 	body, hasEqu, hasGlobal := genBody(r, o)
-	if !o.Coff && o.Org < 0 && len(body) > 3 && r.Chance(1, 2) {
+	if !o.Coff && o.Org < 0 && len(body) > 3 && feat(r, "late_org", 1, 2) {
 		// the only ORG comes after a few bytes of data or code (the location counter is not 0 at that point)
 		at := r.Range(1, 6)
 		if at > len(body)-1 {
@@ -999,15 +1058,28 @@ func genProgram(r *RNG, name string, twin bool, nonASCII bool) []*Program {
 		pre := []string{"\tDB\t0xeb, 0x4e, 0x90", fmt.Sprintf("\tORG\t0x%x", pick(r, []int{0x100, 0x7c00, 0xc200, 0x8000}))}
 		body = append(body[:at:at], append(pre, body[at:]...)...)
 	}
-	if r.Chance(1, 6) {
+	if feat(r, "jumpstress", 1, 6) {
 		body = append(body, genJumpStress(r)...)
+	}
+	switch forceFeature { // statement-level constructs: one explicit instance
+	case "undefined_target":
+		body = append(body, "\t"+pick(r, []string{"JMP", "CALL", "JNZ"})+"\t"+pick(r, undefinedTargets))
+	case "seg_operand":
+		body = append(body, "\tMOV\tAX,"+pick(r, sregs)+":"+pick(r, regs16), "\tMOV\t"+pick(r, regs16)+",15")
+	case "poison_data":
+		body = append(body, "\tDW\t512, "+pick(r, undefinedTargets)+"+2", "\tDD\t1, 2")
+	case "big_resb":
+		body = append(body, "\tRESB\t"+pick(r, []string{"65536", "131072"}))
+	case "shared_operands":
+		op := pick(r, sharedOperands)
+		body = append(body, "\tMOV\t"+op, "\tCMP\t"+op)
 	}
 	p := &Program{Name: name, Header: headerFor(o, r), Body: body, Origin: "gen"}
 	classify(p)
 	p.HasEQU, p.HasGlobal = hasEqu, hasGlobal
 	p.ErrPath = true // the statement mix always may contain unsupported forms; measured later
 	out := []*Program{p}
-	if twin && r.Chance(1, 2) {
+	if twin && feat(r, "edit_twin", 1, 2) {
 		// "edit" twin: the same program after a one-line edit that changes a size (edit-and-reassemble):
 		// same header, same number of statements and labels, but label addresses move
 		var cand []int
